@@ -354,6 +354,24 @@ class PipeGen(object):
         return {'$replaceRoot': {'newRoot': nr}}
 
     def st_bucket(self, docs):
+        if self.r.random() < 0.3:
+            # inside the domain of the oracle (Spec.Pipe.bucketReasons = []) more often than not:
+            # the integer `_id` (or a numeric field) against integer / double boundaries, a
+            # default below, above or of another type — or none —, plain accumulators
+            o = {'groupBy': self.r.choice(['$_id', '$_id', '$a', '$b']),
+                 'boundaries': sorted(self.r.sample([-1, 0, 1, 1.5, 2, 3, 4, 5, 6.5, 8],
+                                                    self.r.choice([2, 3, 3, 4, 5])))}
+            x = self.r.random()
+            if x < 0.75:
+                o['default'] = self.r.choice(['other', 'other', -3, -1.5, 8, 100, 'zz',
+                                              gen_expr.DATES[0]])
+            if self.r.random() < 0.6:
+                o['output'] = self.r.choice([
+                    {'n': {'$sum': 1}, 'ids': {'$push': '$_id'}},
+                    {'ids': {'$push': '$_id'}, 'lo': {'$min': '$_id'}, 'hi': {'$max': '$_id'}},
+                    {'f': {'$first': '$_id'}, 'l': {'$last': '$g'}, 's': {'$addToSet': '$g'}},
+                    {}, self.accumulators()])
+            return {'$bucket': o}
         bs = sorted(self.r.sample([-2, -1, 0, 0.5, 1, 2, 2.5, 3, 5, 10], self.r.choice([2, 3, 3, 4])))
         o = {'groupBy': self.r.choice(['$a', '$a', '$b', '$d.n', '$k', '$zz', '$s']) if
              self.r.random() < 0.8 else self.eg.top('num')[0],
